@@ -14,11 +14,11 @@ echo "$det"
 if [ $vrc -ne 0 ]; then echo "NOT KEPT (not confirmed)"; exit 1; fi
 D=seeded/$ID-$V; mkdir -p "$D"
 cp "$SRC/$V.patch.diff" "$D/patch.diff"; cp "$SRC/$V.demo.rs" "$D/demo.rs"; cp "$SRC/$V.notes.md" "$D/notes.md"
-python3 - "$PROP" "$V" "$D" "$ID" <<PY
-import json, sys, re
+VER_TEXT="$ver" DET_TEXT="$det" python3 - "$PROP" "$V" "$D" "$ID" <<'PY'
+import json, os, sys, re
 ID, V, D, FULL = sys.argv[1:5]
-ver = """$ver"""
-det = """$det"""
+ver = os.environ["VER_TEXT"]
+det = os.environ["DET_TEXT"]
 files = sorted(set(re.findall(r'^\+\+\+ b/(\S+)', open(D + '/patch.diff').read(), re.M)))
 detection = {}
 for l in det.splitlines():
